@@ -81,6 +81,7 @@ func genPool(t *rapid.T, prop string) *PoolProg {
 	p.UdMs, p.UdCalls = rapid.SampledFrom([]int{0, 1, 1}).Draw(t, "udms"), 1
 	p.Flaps = rapid.IntRange(0, 10).Draw(t, "flaps")
 	p.Resolves = rapid.IntRange(0, 5).Draw(t, "resolves")
+	p.Siblings = rapid.SampledFrom([]int{0, 0, 1, 3}).Draw(t, "siblings")
 	return p
 }
 
